@@ -1226,7 +1226,8 @@ def install(m):
         if i >= len(es):
             return perr()
         bits = BITS[ty]
-        wide = bits + 8
+        # wide enough for every value the digit run can denote (so that overflow of the target type is decided exactly)
+        wide = max(bits + 8, (radix ** (len(es) - i)).bit_length() + 1)
         acc = z3.BitVecVal(0, wide)
         conc_acc = 0
         all_conc = True
@@ -1270,8 +1271,6 @@ def install(m):
                 return perr()
             return ok(Int(ty, val))
         maxdig = len(str(radix ** 0)) and ndig
-        if radix ** ndig - 1 >= (1 << wide):
-            raise Unsupported('integer parse too wide')
         lim = (1 << (bits - 1)) if ty in SIGNED else (1 << bits)
         if radix ** ndig - 1 >= lim:
             fits = z3.ULT(acc, z3.BitVecVal(lim, wide)) if not neg else z3.ULE(acc, z3.BitVecVal(lim, wide))
@@ -1704,7 +1703,13 @@ def install(m):
             if i.sym:
                 raise Unsupported('symbolic get')
             return some(Ptr(p.root, p.path + (('i', s + i.v),))) if i.v < n else none()
-        raise Unsupported('slice::get with range')
+        if isinstance(i, Adt) and i.name in ('Range', 'RangeFrom', 'RangeTo', 'RangeFull', 'RangeInclusive', 'RangeToInclusive'):
+            # get(range): the panics of Index become None
+            try:
+                return some(_index(m, [a[0], i], c, rt))
+            except Panic:
+                return none()
+        raise Unsupported('slice::get with %r' % (i,))
 
     @reg('get_mut')
     def _get_mut(m, a, c, rt):
@@ -2446,7 +2451,53 @@ def install2(m):
 
     @reg('rsplit', 'rsplitn')
     def _rsplit(m, a, c, rt):
-        raise Unsupported('rsplit')
+        p = a[0] if a[0].meta is not None else fat(m, a[0], 'str')
+        limit = None
+        pat = a[1]
+        if c.method == 'rsplitn':
+            limit = a[1].v
+            pat = a[2]
+            if limit == 0:
+                return ListIter([])
+        pt = deref(m, pat) if isinstance(pat, Ptr) else pat
+        pred = closure_pred(m, pat) if isinstance(pt, (Closure, FnItem)) else char_pred(m, pat)
+        es = elems_of(m, p)
+        pieces = []
+        end = len(es)
+        for i in range(len(es) - 1, -1, -1):
+            if limit is not None and len(pieces) >= limit - 1:
+                break
+            if m.ctx.branch(pred(es[i], i)):
+                pieces.append(sub(p, i + 1, end - i - 1))
+                end = i
+        pieces.append(sub(p, 0, end))
+        return ListIter(pieces)
+
+    @reg('str::split_terminator', 'split_terminator')
+    def _split_terminator(m, a, c, rt):
+        p = a[0] if a[0].meta is not None else fat(m, a[0], 'str')
+        pat = a[1]
+        pt = deref(m, pat) if isinstance(pat, Ptr) else pat
+        pred = closure_pred(m, pat) if isinstance(pt, (Closure, FnItem)) else char_pred(m, pat)
+        pieces = split_pieces(m, p, pred)
+        if pieces and pieces[-1].meta[2] == 0:
+            pieces.pop()
+        return ListIter(pieces)
+
+    @reg('str::split_inclusive', 'split_inclusive')
+    def _split_inclusive(m, a, c, rt):
+        p = a[0] if a[0].meta is not None else fat(m, a[0], 'str')
+        pred = char_pred(m, a[1])
+        es = elems_of(m, p)
+        pieces = []
+        start = 0
+        for i, e in enumerate(es):
+            if m.ctx.branch(pred(e, i)):
+                pieces.append(sub(p, start, i + 1 - start))
+                start = i + 1
+        if start < len(es):
+            pieces.append(sub(p, start, len(es) - start))
+        return ListIter(pieces)
 
     @reg('split_whitespace', 'split_ascii_whitespace')
     def _split_ws(m, a, c, rt):
@@ -2584,6 +2635,26 @@ def install2(m):
     @reg('read_volatile', 'ptr::read', 'read')
     def _read_volatile(m, a, c, rt):
         return copy_val(m.load(a[0]))
+
+    @reg('u8::pow', 'u16::pow', 'u32::pow', 'u64::pow', 'u128::pow', 'usize::pow', 'i32::pow', 'i64::pow', 'num::pow')
+    def _int_pow(m, a, c, rt):
+        # #[rustc_inherit_overflow_checks]: with overflow checks on (the configuration of the MIR that is executed) overflow panics
+        base, exp = a[0], a[1]
+        if not isinstance(base, Int) or not isinstance(exp, Int):
+            raise Unsupported('pow on %r' % (base,))
+        if exp.sym:
+            e = m.ctx.concretize(exp)
+            exp = Int(exp.ty, e)
+        acc = Int(base.ty, 1)
+        for _ in range(exp.v):
+            t = m.binop('MulWithOverflow', acc, base)
+            ov = t.fields[1]
+            if is_sym(ov):
+                ov = m.ctx.branch(ov)
+            if ov:
+                raise Panic('attempt to multiply with overflow')
+            acc = t.fields[0]
+        return acc
 
     @reg('wrapping_neg')
     def _wrapping_neg(m, a, c, rt):
